@@ -71,3 +71,177 @@ Proof.
     + inv Hs. apply IH in Hr1; [|cbn; lia]. exact Hr1.
     + inv Hs. apply IH in Hr1; [|exact Hb]. exact Hr1.
 Qed.
+
+(* ------------------------------------------------------------ tumbling span *)
+Definition t_inv (d : Z) (w : tumbling) (hi : option Z) : Prop :=
+  t_dur w = d /\
+  (forall s, t_start w = Some s -> exists h, hi = Some h /\ s <= h) /\
+  (forall f r, t_buf w = f :: r ->
+     exists s, t_start w = Some s /\ s <= ets f /\ Forall (fun e => ets e < s + d) (t_buf w)).
+
+Lemma t_inv_span : forall d w hi, t_inv d w hi -> span_ok d (t_buf w).
+Proof.
+  intros d w hi Hi. destruct Hi as (Hd & _ & Hb). unfold span_ok. destruct (t_buf w) as [|f r] eqn:E; [exact I|].
+  destruct (Hb f r eq_refl) as (s & _ & Hle & Hall).
+  eapply Forall_impl; [|exact Hall]. cbn. intros a Ha. lia.
+Qed.
+
+Lemma omax_ge : forall hi t h, omax hi t = Some h -> t <= h /\ (forall h0, hi = Some h0 -> h0 <= h).
+Proof.
+  intros [h0|] t h H; cbn in H; inv H; split; try lia; intros h1 H1; inv H1; lia.
+Qed.
+
+Lemma omax_some : forall hi t, exists h, omax hi t = Some h.
+Proof. intros [h0|] t; cbn; eauto. Qed.
+
+Lemma t_inv_mono : forall d w hi t, t_inv d w hi -> t_inv d w (omax hi t).
+Proof.
+  intros d w hi t Hi. destruct Hi as (Hd & Hs & Hb). split; [exact Hd|]. split; [|exact Hb].
+  intros s E. destruct (Hs s E) as (h & Hh & Hle). destruct (omax_some hi t) as [h' Hh'].
+  exists h'. split; [exact Hh'|]. destruct (omax_ge _ _ _ Hh') as [_ H2]. specialize (H2 _ Hh). lia.
+Qed.
+
+Lemma tumbling_run : forall d ops w hi outs s',
+  1 <= d -> t_inv d w hi -> time_ordered_from hi ops ->
+  run (WT w) ops = (outs, s') ->
+  Forall (span_ok d) (all_windows outs ++ [buffered s']).
+Proof.
+  intros d. induction ops as [|o r IH]; intros w hi outs s' Hd Hi Ho Hr; cbn [run] in Hr.
+  - inv Hr. cbn. constructor; [|constructor]. eapply t_inv_span; eauto.
+  - destruct (step (WT w) o) as [s1 x] eqn:Hs. destruct (run s1 r) as [xs s2] eqn:Hr1. inv Hr.
+    rewrite all_windows_cons, <- app_assoc.
+    destruct o as [e|t|t| | ]; cbn [step] in Hs; cbn [time_ordered_from] in Ho.
+    + (* Add *)
+      destruct Ho as [Hle Ho].
+      pose proof Hi as Hi0. destruct Hi0 as (Hdur & Hst & Hbuf). subst d.
+      unfold t_add in Hs. destruct (ets e >=? _) eqn:E; inv Hs; cbn [of_opt windows_of app].
+      * constructor; [eapply t_inv_span; eauto|].
+        eapply IH; [exact Hd| |exact Ho|exact Hr1]. unfold t_inv.
+        split; [reflexivity|]. split.
+        -- intros s E1. cbn in E1. inv E1. destruct (omax_some hi (ets e)) as [h' Hh']. exists h'. split; [exact Hh'|].
+           apply omax_ge in Hh'. lia.
+        -- intros f r0 E1. cbn in E1. inv E1. exists (ets f). cbn. split; [reflexivity|]. split; [lia|].
+           constructor; [lia|constructor].
+      * eapply IH; [exact Hd| |exact Ho|exact Hr1]. unfold t_inv.
+        split; [reflexivity|]. split.
+        -- intros s E1. cbn in E1. destruct (omax_some hi (ets e)) as [h' Hh']. exists h'. split; [exact Hh'|].
+           apply omax_ge in Hh'. destruct Hh' as [H1 H2].
+           destruct (t_start w) as [s0|] eqn:Est; inv E1; [|lia].
+           destruct (Hst _ eq_refl) as (h & Hh & Hsh). subst hi. cbn in Hle. specialize (H2 _ eq_refl). lia.
+        -- intros f r0 E1. cbn [t_buf t_start] in *.
+           assert (Hnew : ets e < match t_start w with Some s => s | None => ets e end + t_dur w) by lia.
+           destruct (t_buf w) as [|f0 r1] eqn:Eb.
+           ++ cbn in E1. inv E1. eexists. split; [reflexivity|]. split.
+              ** destruct (t_start w) as [s0|] eqn:Est; [|lia].
+                 destruct (Hst _ eq_refl) as (h & Hh & Hsh). subst hi. cbn in Hle. lia.
+              ** constructor; [|constructor]. exact Hnew.
+           ++ destruct (Hbuf _ _ eq_refl) as (s & Es & Hsf & Hall). rewrite Es in *.
+              cbn in E1. inv E1. exists s. split; [reflexivity|]. split; [exact Hsf|].
+              change (f :: r1 ++ [e]) with ((f :: r1) ++ [e]). apply Forall_app. split; [exact Hall|].
+              constructor; [|constructor]. exact Hnew.
+    + (* Wm *)
+      pose proof Hi as Hi0. destruct Hi0 as (Hdur & Hst & Hbuf). subst d.
+      unfold t_wm in Hs. destruct (t_start w) as [s0|] eqn:Est; [destruct (_ && _) eqn:E|]; inv Hs; cbn [of_opt windows_of app].
+      * constructor; [eapply t_inv_span; eauto|].
+        eapply IH; [exact Hd| |exact Ho|exact Hr1]. unfold t_inv.
+        split; [reflexivity|]. split.
+        -- intros s E1. cbn in E1. inv E1. destruct (omax_some hi s) as [h' Hh']. exists h'. split; [exact Hh'|].
+           apply omax_ge in Hh'. lia.
+        -- intros f r0 E1. cbn in E1. discriminate.
+      * eapply IH; [exact Hd| |exact Ho|exact Hr1]. now apply t_inv_mono.
+      * eapply IH; [exact Hd| |exact Ho|exact Hr1]. now apply t_inv_mono.
+    + inv Hs. cbn [windows_of app]. eapply IH; [exact Hd| |exact Ho|exact Hr1]. now apply t_inv_mono.
+    + (* Flush *)
+      inv Hs. cbn [windows_of app]. constructor; [eapply t_inv_span; eauto|].
+      pose proof Hi as Hi0. destruct Hi0 as (Hdur & Hst & Hbuf). subst d.
+      eapply IH; [exact Hd| |exact Ho|exact Hr1]. unfold t_inv. split; [reflexivity|]. split; [exact Hst|]. intros f r0 E1. cbn in E1. discriminate.
+    + inv Hs. cbn [windows_of app]. eapply IH; [exact Hd|exact Hi|exact Ho|exact Hr1].
+Qed.
+
+(* ------------------------------------------------------------- session gaps *)
+Lemma ss_app_inv : forall (R : ev -> ev -> Prop) a b,
+  StronglySorted R (a ++ b) ->
+  StronglySorted R a /\ StronglySorted R b /\ (forall x y, In x a -> In y b -> R x y).
+Proof.
+  intros R. induction a as [|x a IH]; intros b H; cbn in *.
+  - split; [constructor|]. split; [exact H|]. intros x y [].
+  - apply StronglySorted_inv in H. destruct H as [H1 H2]. destruct (IH _ H1) as (Ha & Hb & Hab).
+    rewrite Forall_app in H2. destruct H2 as [H2a H2b]. rewrite Forall_forall in H2b.
+    split; [constructor; assumption|]. split; [exact Hb|].
+    intros x0 y [->|Hin] Hy; [now apply H2b|now apply Hab].
+Qed.
+
+Lemma gaps_ok_snoc : forall g b e,
+  gaps_ok g b -> (forall b0 x, b = b0 ++ [x] -> 0 <= ets e - ets x <= g) -> gaps_ok g (b ++ [e]).
+Proof.
+  intros g. induction b as [|x b IH]; intros e Hg Hl; [exact I|].
+  destruct b as [|y b].
+  - cbn. split; [|exact I]. apply (Hl [] x). reflexivity.
+  - cbn [app gaps_ok] in *. destruct Hg as [H1 H2]. split; [exact H1|].
+    apply IH; [exact H2|]. intros b0 x0 E. apply (Hl (x :: b0) x0). cbn. now rewrite E.
+Qed.
+
+Definition s_inv (g : Z) (w : session) : Prop :=
+  s_gap w = g /\ gaps_ok g (s_buf w) /\
+  (s_last w = None -> s_buf w = []) /\
+  (forall b x, s_buf w = b ++ [x] -> s_last w = Some (ets x)).
+
+Lemma snoc_inj : forall (b b0 : list ev) e x, b ++ [e] = b0 ++ [x] -> b = b0 /\ e = x.
+Proof. intros b b0 e x H. apply app_inj_tail in H. exact H. Qed.
+
+Lemma session_run : forall g ops w outs s',
+  0 <= g -> s_inv g w -> in_order (s_buf w ++ arrivals ops) ->
+  run (WS w) ops = (outs, s') ->
+  Forall (gaps_ok g) (all_windows outs ++ [buffered s']).
+Proof.
+  intros g. induction ops as [|o r IH]; intros w outs s' Hg Hi Ho Hr; cbn [run] in Hr.
+  - inv Hr. cbn. constructor; [|constructor]. apply Hi.
+  - destruct (step (WS w) o) as [s1 x] eqn:Hs. destruct (run s1 r) as [xs s2] eqn:Hr1. inv Hr.
+    rewrite all_windows_cons, <- app_assoc.
+    pose proof Hi as Hi0. destruct Hi0 as (Hgap & Hok & Hnone & Hlast).
+    assert (Hflush : s_inv g (mkS (s_gap w) [] None)).
+    { unfold s_inv. cbn. split; [exact Hgap|]. split; [exact I|]. split; [reflexivity|].
+      intros b x0 E. destruct b; discriminate. }
+    assert (Hnil : in_order ([] ++ arrivals r) -> in_order (s_buf (mkS (s_gap w) [] None) ++ arrivals r)) by (intro H; exact H).
+    rewrite arrivals_cons in Ho.
+    destruct o as [e|t|t| | ]; cbn [step] in Hs; cbn [arrivals flat_map app] in Ho.
+    + (* Add *)
+      unfold s_add in Hs.
+      destruct (s_last w) as [l|] eqn:El; [destruct (_ >? _) eqn:E|]; inv Hs; cbn [of_opt windows_of app].
+      * constructor; [exact Hok|].
+        eapply IH; [exact Hg| | |exact Hr1].
+        -- unfold s_inv. cbn. split; [reflexivity|]. split; [exact I|]. split; [discriminate|].
+           intros b x0 E0. destruct b as [|? [|? ?]]; inv E0. reflexivity.
+        -- cbn [s_buf]. apply ss_app_inv in Ho. apply Ho.
+      * eapply IH; [exact Hg| | |exact Hr1].
+        -- unfold s_inv. cbn [s_gap s_buf s_last]. split; [reflexivity|]. split.
+           ++ apply gaps_ok_snoc; [exact Hok|]. intros b0 x0 E0.
+              pose proof (Hlast _ _ E0) as Hl0. inv Hl0. split; [|lia].
+              apply ss_app_inv in Ho. destruct Ho as (_ & _ & Hab).
+              specialize (Hab x0 e). cbn in Hab. enough (ets x0 <= ets e) by lia. apply Hab.
+              ** rewrite E0. apply in_or_app. right. now left.
+              ** now left.
+           ++ split; [discriminate|]. intros b x0 E0. apply snoc_inj in E0. destruct E0 as [_ <-]. reflexivity.
+        -- cbn [s_buf]. rewrite <- app_assoc. exact Ho.
+      * eapply IH; [exact Hg| | |exact Hr1].
+        -- unfold s_inv. cbn [s_gap s_buf s_last]. rewrite (Hnone eq_refl). cbn. split; [reflexivity|]. split; [exact I|].
+           split; [discriminate|]. intros b x0 E0. destruct b as [|? [|? ?]]; inv E0. reflexivity.
+        -- cbn [s_buf]. rewrite <- app_assoc. exact Ho.
+    + (* Wm *)
+      try rewrite app_nil_r in Ho.
+      unfold s_wm in Hs. destruct (s_last w) as [l|] eqn:El; [destruct (_ && _) eqn:E|]; inv Hs; cbn [of_opt windows_of app fst s_flush].
+      * constructor; [exact Hok|]. eapply IH; [exact Hg|exact Hflush| |exact Hr1]. apply Hnil. apply ss_app_inv in Ho. apply Ho.
+      * eapply IH; [exact Hg|exact Hi|exact Ho|exact Hr1].
+      * eapply IH; [exact Hg|exact Hi|exact Ho|exact Hr1].
+    + (* Expire *)
+      try rewrite app_nil_r in Ho.
+      unfold s_expire in Hs. destruct (s_last w) as [l|] eqn:El; [destruct (_ >? _) eqn:E|]; inv Hs; cbn [of_opt windows_of app fst s_flush].
+      * constructor; [exact Hok|]. eapply IH; [exact Hg|exact Hflush| |exact Hr1]. apply Hnil. apply ss_app_inv in Ho. apply Ho.
+      * eapply IH; [exact Hg|exact Hi|exact Ho|exact Hr1].
+      * eapply IH; [exact Hg|exact Hi|exact Ho|exact Hr1].
+    + (* Flush *)
+      try rewrite app_nil_r in Ho.
+      inv Hs. cbn [windows_of app]. constructor; [exact Hok|].
+      eapply IH; [exact Hg|exact Hflush| |exact Hr1]. apply Hnil. apply ss_app_inv in Ho. apply Ho.
+    + try rewrite app_nil_r in Ho. inv Hs. cbn [windows_of app]. eapply IH; [exact Hg|exact Hi|exact Ho|exact Hr1].
+Qed.
